@@ -5,6 +5,7 @@ import (
 	"verif/core"
 	"verif/e2/check"
 	"verif/e2/families"
+	"verif/e2/spec"
 )
 
 func run(c *core.Ctx) {
@@ -18,7 +19,9 @@ func run(c *core.Ctx) {
 	c.Assume("valid values whose delivery itself is the subject of C02 findings (empty string outside the body, '/', '%' or space in path values, bytes in paths) are left to C02")
 	c.Assume("format validity comes from constructive tables (each string is valid or invalid by construction); strings outside the tables are never sent for format-validated attributes")
 	c.Assume("the wire is in-memory (see C02)")
-	for _, f := range []check.Family{families.PayloadValidation(c.Thorough()), families.ResultValidation(c.Thorough()), families.PayloadValidationPairs(), families.ResultValidationPairs(), families.CrossService()} {
+	c.Rule("deep positions (JSON bodies): " + spec.DeepValidationDoc + "; the unvalidated deep-shape families (required attributes and defaults at inner levels) are run as well: " + spec.DeepShapesDoc)
+	for _, f := range []check.Family{families.PayloadValidation(c.Thorough()), families.ResultValidation(c.Thorough()), families.PayloadValidationPairs(), families.ResultValidationPairs(), families.CrossService(),
+		families.DeepPayloadValidation(c.Thorough()), families.DeepResultValidation(c.Thorough()), families.DeepPayloadShapes(c.Thorough()), families.DeepResultShapes(c.Thorough())} {
 		corpus, err := check.BuildFamily(c, f)
 		if err != nil {
 			c.HarnessError("%s: %v", f.Name, err)
